@@ -776,3 +776,7 @@ def run(ctx):
     _run_main2(ctx)
     extras2(ctx)
     ctx.flush()
+
+
+# evidence: how the model is tied to the source on every run (as built, supersedes the value above)
+TIE = "translator (window -> Gen/KoWindow, bandwidth functions and smoothing frame -> Gen/FreqBand; Props/C07Gen, C07GenBand) + correspondence (exact rational kernel on the impl's raw weights; Float twin)"
